@@ -1,6 +1,7 @@
 package main
 
 import (
+	"crypto/sha1"
 	"fmt"
 	"os"
 	"path/filepath"
@@ -36,6 +37,16 @@ func tmpDir() string {
 	return d
 }
 
+// C10 "never modifies the input", for the inputs that are FILES: every file a handler hands to pgread is written through
+// put, which remembers its content; release (deferred by the handler in place of os.RemoveAll) compares the directory
+// with what was written - a changed, removed or additional regular file is reported by checkedFiles as
+// INPUT-MODIFIED:files:…, which harness/core treats like a modified input buffer.
+var (
+	filesMu      sync.Mutex
+	putFiles     = map[string][20]byte{}
+	filesChanged []string
+)
+
 func put(dir, rel string, data []byte) string {
 	p := filepath.Join(dir, filepath.FromSlash(rel))
 	if err := os.MkdirAll(filepath.Dir(p), 0o755); err != nil {
@@ -44,7 +55,61 @@ func put(dir, rel string, data []byte) string {
 	if err := os.WriteFile(p, data, 0o644); err != nil {
 		panic(err)
 	}
+	filesMu.Lock()
+	putFiles[p] = sha1.Sum(data)
+	filesMu.Unlock()
 	return p
+}
+
+// release compares every regular file under dir with what put wrote there, then removes the directory
+func release(dir string) {
+	filesMu.Lock()
+	defer filesMu.Unlock()
+	seen := map[string]bool{}
+	filepath.Walk(dir, func(p string, info os.FileInfo, err error) error {
+		if err != nil || !info.Mode().IsRegular() {
+			return nil
+		}
+		rel, _ := filepath.Rel(dir, p)
+		want, ok := putFiles[p]
+		if !ok {
+			filesChanged = append(filesChanged, "new:"+rel)
+			return nil
+		}
+		seen[p] = true
+		if b, err := os.ReadFile(p); err != nil || sha1.Sum(b) != want {
+			filesChanged = append(filesChanged, "changed:"+rel)
+		}
+		return nil
+	})
+	prefix := dir + string(filepath.Separator)
+	for p := range putFiles {
+		if strings.HasPrefix(p, prefix) {
+			if !seen[p] {
+				rel, _ := filepath.Rel(dir, p)
+				filesChanged = append(filesChanged, "removed:"+rel)
+			}
+			delete(putFiles, p)
+		}
+	}
+	os.RemoveAll(dir)
+}
+
+// checkedFiles wraps a handler whose inputs are (also) files on disk
+func checkedFiles(h core.Handler) core.Handler {
+	return func(args []string) string {
+		filesMu.Lock()
+		filesChanged = nil
+		filesMu.Unlock()
+		out := h(args)
+		filesMu.Lock()
+		defer filesMu.Unlock()
+		if len(filesChanged) > 0 {
+			sort.Strings(filesChanged)
+			return "INPUT-MODIFIED:files:" + strings.Join(filesChanged, ",") + ":" + out
+		}
+		return out
+	}
 }
 
 // sh renders a value for comparison of two results of the real code (never compared with the model):
